@@ -284,6 +284,9 @@ int main(int argc, char **argv) {
             return 0;
         }
         if (!refused(d)) { printf("FAIL loaded a damaged file\n"); return 1; }
+        // the enumeration loads the intact file first and then every damaged image in one process (as the daemon and the
+        // co-process do with successive requests): reproduce that history too
+        if (!refused(f) && !refused(d)) { printf("FAIL loaded a damaged file after the intact file had been loaded by the same process\n"); return 1; }
         printf("OK refused\n");
         return 0;
     }
